@@ -9,7 +9,7 @@
    [name_addr c n] (address a service name is bound to). *)
 From Coq Require Import ZArith List Bool.
 From NV Require Import Base.Result Base.Bytes Base.PyPrims Model.Addr Proofs.Addr Proofs.AddrInv Proofs.AddrStep
-  Proofs.AddrThm Proofs.AddrMain.
+  Proofs.AddrThm Proofs.AddrMain Gen.AddrK Bridge.Addr.
 Import ListNotations.
 Open Scope Z_scope.
 
@@ -169,6 +169,103 @@ Theorem C17_datagram_recvfrom_partial : forall c i s c' data ssap, get_sock c i 
   exists d q, s_recvq s = PUI d ssap data :: q /\ get_sock c' i = Some (set_recvq s q).
 Proof. exact datagram_recvfrom. Qed.
 Print Assumptions C17_datagram_recvfrom_partial.
+
+(* --- tie: the allocation logic regenerated from src/nfc/llcp/llc.py on this run (Gen/AddrK.v, functions of the
+       occupancy list occ = [x is None for x in self.sap]) is what the model computes.  Every reachable controller has
+       64 slots (C17_bridge_table_len), which is the only premise. --- *)
+Theorem C17_bridge_table_len : forall blk ops sd, length (c_sap (reach blk ops sd)) = 64%nat.
+Proof. exact (fun blk ops sd => wf_len _ (reach_wf blk ops sd)). Qed.
+Print Assumptions C17_bridge_table_len.
+Theorem C17_bridge_wks : forall n, gen_c17_wks n = wks n.
+Proof. exact bridge_wks. Qed.
+Print Assumptions C17_bridge_wks.
+Theorem C17_bridge_sap_is_none : forall c a, length (c_sap c) = 64%nat -> 0 <= a < 64 -> occ_free (occ_of c) a = is_free c a.
+Proof. exact bridge_occ_free. Qed.
+Print Assumptions C17_bridge_sap_is_none.
+Theorem C17_bridge_scan : forall c lo hi, length (c_sap c) = 64%nat -> 0 <= lo -> lo <= hi -> hi <= 64 ->
+  option_map (fun k => lo + k) (sap_index_none (occ_of c) lo hi) = first_free c (zrange lo hi).
+Proof. exact bridge_scan. Qed.
+Print Assumptions C17_bridge_scan.
+Theorem C17_bridge_bind_by_none : forall c i s, length (c_sap c) = 64%nat ->
+  match bind_none c i s with (c', Some _) => ok c' OUnit | (c', None) => llerr c' EAGAIN end =
+  match gen_c17_bind_by_none (occ_of c) with
+  | inl (a, _) => ok (place c i s a) OUnit
+  | inr e => llerr c e
+  end.
+Proof. exact bridge_bind_by_none. Qed.
+Print Assumptions C17_bridge_bind_by_none.
+Theorem C17_bridge_bind_by_addr : forall c i s a, length (c_sap c) = 64%nat ->
+  bind_addr c i s a =
+  match gen_c17_bind_by_addr (occ_of c) (stype_eqb (s_type s) TRaw) a with
+  | inl (a', _) => ok (place c i s a') OUnit
+  | inr e => llerr c e
+  end.
+Proof. exact bridge_bind_by_addr. Qed.
+Print Assumptions C17_bridge_bind_by_addr.
+Theorem C17_bridge_bind_by_name : forall c i s n, length (c_sap c) = 64%nat ->
+  bind_name c i s n =
+  match gen_c17_bind_by_name (occ_of c) (name_valid n)
+                             (match lookup (c_snl c) n with Some _ => true | None => false end) n with
+  | inl (a, true) => ok (set_snl (place c i (set_bname s (Some n)) a) (c_snl c ++ [(n, a)])) OUnit
+  | inl (a, false) => ok (place c i s a) OUnit
+  | inr e => llerr c e
+  end.
+Proof. exact bridge_bind_by_name. Qed.
+Print Assumptions C17_bridge_bind_by_name.
+Theorem C17_bridge_do_bind : forall c i s arg, get_sock c i = Some s ->
+  do_bind c i arg =
+  match s_addr s with
+  | Some _ => llerr c gen_c17_bind_twice
+  | None => match arg with
+            | BNone => match bind_none c i s with (c', Some _) => ok c' OUnit | (c', None) => llerr c' EAGAIN end
+            | BAddr a => bind_addr c i s a
+            | BName n => bind_name c i s n
+            | BBad => llerr c gen_c17_bind_badtype
+            end
+  end.
+Proof. exact bridge_do_bind. Qed.
+Print Assumptions C17_bridge_do_bind.
+Theorem C17_bridge_remove_socket : forall c a i,
+  sap_remove c a i =
+  match sap_get c a with
+  | Sap l sl =>
+      if gen_c17_remove_frees (len (remove_id l i))
+      then set_snl (sap_set c a SapNone) (filter (fun kv => negb (gen_c17_name_dropped (snd kv) a)) (c_snl c))
+      else sap_set c a (Sap (remove_id l i) sl)
+  | _ => c
+  end.
+Proof. exact bridge_remove. Qed.
+Print Assumptions C17_bridge_remove_socket.
+Theorem C17_bridge_sap_enqueue : forall c a l sl p,
+  sap_enqueue c a l sl p =
+  if is_connect p then
+    match pick_sock c l (fun s => sstate_eqb (s_state s) StListen) with
+    | Some (i, s) => sock_enqueue c i s p
+    | None => (sap_set c a (Sap l (sl ++ [PDM (pdu_ssap p) (pdu_dsap p) gen_c17_dm_unbound])), Ok [])
+    end
+  else
+    match pick_sock c l (fun s => gen_c17_peer_match (pdu_ssap p) (s_peer s)) with
+    | Some (i, s) => sock_enqueue c i s p
+    | None => if is_dlc_pdu p
+              then (sap_set c a (Sap l (sl ++ [PDM (pdu_ssap p) (pdu_dsap p) gen_c17_dm_inactive])), Ok [])
+              else (c, Ok [])
+    end.
+Proof. exact bridge_sap_enqueue. Qed.
+Print Assumptions C17_bridge_sap_enqueue.
+Theorem C17_bridge_connect_by_name : forall c ssap sn,
+  dispatch c (PConnect 1 ssap sn) =
+  let addr := match sn with Some n => lookup (c_snl c) n | None => None end in
+  if gen_c17_cbn_absent addr (match addr with Some a => is_free c a | None => false end)
+  then (set_dmpdu c (sd_dmpdu c ++ [PDM ssap 1 (gen_c17_cbn_reason (match sn with None => true | Some _ => false end))]), Ok [])
+  else let a := match addr with Some a => a | None => 0 end in
+       let p := PConnect a ssap None in
+       match sap_get c (pdu_dsap p) with
+       | SapNone => (c, Ok [])
+       | SapSD => sd_enqueue c p
+       | Sap l sl => sap_enqueue c (pdu_dsap p) l sl p
+       end.
+Proof. exact bridge_connect_by_name. Qed.
+Print Assumptions C17_bridge_connect_by_name.
 
 (* non-vacuity: a concrete history - bind by name, listen, connect by name from the peer, transfer, accept;
    a datagram sent and received; close frees address 16 and the name *)
